@@ -13,9 +13,10 @@ EXTENDS TraceBase, MSM
 
 VARIABLES l, bad, nwf
 
-Ok(e) ==
-    \/ ~WellFormedMSM(e.raw)                  \* the property demands nothing
-    \/ LET d == DecodeMSM(e.raw) IN
+\* (\E d \in {X} : ... binds d to the VALUE of X: inside an action TLC re-evaluates a LET-bound expression at every use)
+Ok(e, wf) ==
+    \/ ~wf                                    \* the property demands nothing
+    \/ \E d \in {DecodeMSM(e.raw)} :
        /\ e.panic = "" /\ e.err = ""
        /\ e.hdr = d.hdr
        /\ e.satmask = SatMask(e.raw) /\ e.sigmask = SigMask(e.raw) /\ e.cellmask = d.cellmask
@@ -27,8 +28,9 @@ Ok(e) ==
 Init == l = 1 /\ bad = <<>> /\ nwf = 0
 Next == /\ l <= Len(Trace)
         /\ l' = l + 1
-        /\ bad' = IF Ok(Trace[l]) \/ Len(bad) >= MaxBad THEN bad ELSE Append(bad, l)
-        /\ nwf' = nwf + (IF WellFormedMSM(Trace[l].raw) THEN 1 ELSE 0)
+        /\ \E wf \in {WellFormedMSM(Trace[l].raw)} :
+              /\ bad' = IF Ok(Trace[l], wf) \/ Len(bad) >= MaxBad THEN bad ELSE Append(bad, l)
+              /\ nwf' = nwf + (IF wf THEN 1 ELSE 0)
 Rec == Note(l, bad) /\ TLCSet(3, nwf)
 VerdictC04 == PrintT(<<"WELLFORMED", TLCGet(3)>>) /\ Verdict
 =============================================================================
